@@ -82,3 +82,66 @@ def reused_buffer(w, cfg):
         for j, (xj, cj_copy, cj) in enumerate(seen[:-1]):
             w.ensure('the composition returned by an earlier call is not changed by a later call', bool(np.array_equal(cj_copy, cj)), earlier=j, later=k)
     w.ensure('vacuity guard: at least two calls of the history were solved', len(seen) >= 2, solved=len(seen))
+
+
+# ----------------------------------------------------------------------------------------------------------------------
+# Added after the seeded change C08_10 (reported by the C16 check, missed by C08): mixtures that contain a chemical WITHOUT
+# functional groups for the activity-coefficient model, listed before chemicals that have groups.  The bubble and dew points
+# must not depend on the order in which the chemicals are listed, and a chemical at zero level must not change them.
+
+import itertools
+
+GROUPLESS = [('Ammonia', 'Water', 'Ethanol'), ('CO2', 'Water', 'Methanol'), ('O2', 'Ethanol', 'Hexane')]
+
+
+def groupless_configs(tier):
+    out = []
+    for IDs in (GROUPLESS if tier == 'thorough' else GROUPLESS[:2]):
+        for what in ('bubble T', 'bubble P', 'dew T', 'dew P'):
+            out.append({'name': f'{"+".join(IDs)};{what}', 'IDs': list(IDs), 'what': what})
+    return out
+
+
+@group('C08/B_groupless_permutation', configs=groupless_configs, mode='B',
+       functions=['thermosteam.equilibrium.bubble_point:BubblePoint.solve_Ty', 'thermosteam.equilibrium.bubble_point:BubblePoint.solve_Py',
+                  'thermosteam.equilibrium.dew_point:DewPoint.solve_Tx', 'thermosteam.equilibrium.dew_point:DewPoint.solve_Px',
+                  'thermosteam.equilibrium.activity_coefficients:GroupActivityCoefficients.__call__'],
+       notes='2 (quick) / 3 (thorough) ternary mixtures whose FIRST chemical has no groups for the Dortmund model (ammonia, CO2, O2) x bubble/dew T/P; all 6 orders of the chemical '
+             'list give the same point and the same per-chemical composition of the other phase (1e-7 relative); with the group-less chemical at zero level the point is '
+             'the one of the binary of the other two (computed on a package that only holds those two)')
+def groupless_permutation(w, cfg):
+    IDs = cfg['IDs']
+    z0 = dict(zip(IDs, (0.05, 0.55, 0.40)))
+    T, P = 330., 101325.
+
+    def point(order, z):
+        chems = tmo.Chemicals(list(order), cache=True)
+        th = tmo.Thermo(chems)
+        zz = np.array([z.get(i, 0.) for i in order])
+        if cfg['what'].startswith('bubble'):
+            s = eq.BubblePoint(th.chemicals, th)
+            x, comp = s.solve_Ty(zz, P) if cfg['what'].endswith('T') else s.solve_Py(zz, T)
+        else:
+            s = eq.DewPoint(th.chemicals, th)
+            x, comp = s.solve_Tx(zz, P) if cfg['what'].endswith('T') else s.solve_Px(zz, T)
+        return x, dict(zip(order, np.asarray(comp, float)))
+    try:
+        ref, cref = point(IDs, z0)
+    except Exception as e:
+        w.note(skipped=f'{type(e).__name__}: {e}'[:100]); w.ensure('the configuration was run', True); return
+    for order in itertools.permutations(IDs):
+        try:
+            x, comp = point(order, z0)
+        except Exception as e:
+            w.ensure(f'order {"/".join(order)}: solved like the first order', False, exception=f'{type(e).__name__}: {e}'[:120]); continue
+        w.ensure(f'{cfg["what"]} does not depend on the order in which the chemicals are listed', abs(x - ref) <= 1e-7 * abs(ref), order=str(order), got=x, first=ref)
+        w.ensure('the composition of the other phase, chemical by chemical, does not depend on the order', all(abs(comp[i] - cref[i]) <= 1e-7 for i in IDs), order=str(order))
+    # the group-less chemical at zero level: the binary of the other two
+    zb = {IDs[1]: 0.6, IDs[2]: 0.4}
+    try:
+        xb, _ = point(IDs[1:], zb)
+        for order in ((IDs[0], IDs[1], IDs[2]), (IDs[1], IDs[0], IDs[2])):
+            x3, _ = point(order, zb)
+            w.ensure('a chemical at zero level does not change the point', abs(x3 - xb) <= 1e-7 * abs(xb), order=str(order), got=x3, binary=xb)
+    except Exception as e:
+        w.note(binary_skipped=f'{type(e).__name__}: {e}'[:100])
